@@ -655,21 +655,29 @@ func checkCall(rec *stats.Recorder, c callCase) (msg string, known string) {
 	if p, pv, st := hx.Try(func() { got, err, sl, _, _ = w.do(c.Config, &c.Call, &c.Outcome, nil) }); p {
 		return fmt.Sprintf("client call panicked: %v\n%s", pv, st), ""
 	}
-	fail := func(format string, a ...any) (string, string) {
+	return judgeCall(mi, &c, got, err, sl), ""
+}
+
+// judgeCall compares what a call observed with what the serial model expects.
+func judgeCall(mi *dyn.MethodInfo, c *callCase, got *dyn.Outcome, err error, sl *slot) string {
+	fail := func(format string, a ...any) string {
 		wire := ""
 		if sl != nil && len(sl.wire) > 0 {
 			cp := sl.wire[len(sl.wire)-1]
 			wire = fmt.Sprintf("\n wire: %s %s  body=%s\n  -> %d %s", cp.Method, cp.URI, hx.Q(cp.Body), cp.Status, hx.Q(cp.RespBody))
 		}
-		return fmt.Sprintf(format, a...) + fmt.Sprintf("\n %s.%s mount=%s config=%+v%s\n call=%s", c.Call.Resource, c.Call.Method, c.Mount, c.Config, wire, hx.J(c.Call)), ""
+		return fmt.Sprintf(format, a...) + fmt.Sprintf("\n %s.%s mount=%s config=%+v%s\n call=%s", c.Call.Resource, c.Call.Method, c.Mount, c.Config, wire, hx.J(c.Call))
 	}
 	if err != nil {
 		return fail("the call failed although the resource succeeds: %v", err)
 	}
-	if n := len(sl.invocations); n != 1 {
+	sl.mu.Lock()
+	invs := append([]*dyn.Invocation(nil), sl.invocations...)
+	sl.mu.Unlock()
+	if n := len(invs); n != 1 {
 		return fail("the call reached %d resource methods, want exactly 1", n)
 	}
-	inv := sl.invocations[0]
+	inv := invs[0]
 	if inv.Call.Resource != c.Call.Resource || inv.Call.Method != c.Call.Method {
 		return fail("the call reached %s.%s", inv.Call.Resource, inv.Call.Method)
 	}
@@ -679,7 +687,7 @@ func checkCall(rec *stats.Recorder, c callCase) (msg string, known string) {
 	if d := diffOutcomes(mi, expectedOutcome(mi, &c.Outcome), got); d != "" {
 		return fail("the caller did not receive what the resource returned: %s\n returned=%s\n received=%s", d, hx.J(c.Outcome), hx.J(got))
 	}
-	return "", ""
+	return ""
 }
 
 var mounts = []string{"bare", "bare", "mux", "prefix", "prefix-mux"}
